@@ -6,10 +6,16 @@ NO_EXPORT_IMPORT = {"quick": {"VERIF_FAIL_EXCLUDE": "export-import"}, "thorough"
 PROPS = {
  "C12": {
   "modules": ["OsmoVerif.Props.C12", "OsmoVerif.Props.C12Str"],
-  "min_theorems": 62,
+  "min_theorems": 64,
   "fingerprints": ["Osmomath.chop*", "Osmomath.incBasedOnRem*", "Osmomath.assertMaxBitLen", "Osmomath.BigDec_*", "Osmomath.NewBigDecFromStr"],
   "engines": [{"name": "num", "kind": "pure", "n": {"quick": 60000, "thorough": 600000}, "shards": {"quick": 4, "thorough": 16}}],
   "rule": "stratified operand pairs (magnitude class x sign x remainder/tie class) for every modelled BigDec/Dec method; "
+          "aliasing / mutation discipline on LIVE objects for every BigDec and LegacyDec method of the table (harness/cmd/pure/numalias.go): one systematic sweep "
+          "method x receiver class x argument class (zero, one, minus one, one ulp, powers of ten, integers, extreme magnitudes, equal operands, the SAME object) per shard "
+          "plus random cases: non-mutating methods leave receiver and arguments bit-identical (also when they panic) and return storage shared with neither (a random ...Mut "
+          "operation is applied to the result, then to the operands, and the other side is read again); ...Mut methods update exactly the receiver, return it, leave a distinct "
+          "argument alone and agree with the non-mutating twin on clones, also for x.opMut(x); alias chains of 3-6 mixed Mut / non-Mut calls over 2-4 shared variables are replayed "
+          "by the value-semantic model (`num chain`) and an independent big.Rat reference; the special classes also pass through the value oracle; "
           "a case is non-trivial when both operands are non-zero; distinct = distinct op lines",
   "trusted_base": ["Go math/big (modelled by Int.tdiv/tmod)", "aliasing/mutation of operands is a heap fact: checked by the engine on the implementation, not by a theorem",
                    "Lean core String runtime (legacy String.splitOn, String.foldl, Nat.repr) as specified by core/Batteries lemmas (Batteries.Data.String.Lemmas get/next/atEnd/extract_of_valid)"],
@@ -94,13 +100,16 @@ PROPS = {
  },
  "C16": {
   "modules": ["OsmoVerif.Props.C16"],
-  "min_theorems": 18,
+  "min_theorems": 22,
   "fingerprints": [],
-  "engines": [{"name": "sumtree", "kind": "pure", "n": {"quick": 25000, "thorough": 400000}, "shards": {"quick": 4, "thorough": 16}}],
+  "engines": [{"name": "sumtree", "kind": "pure", "n": {"quick": 25000, "thorough": 400000}, "shards": {"quick": 4, "thorough": 16},
+               "timeout": 12000}],  # a thorough shard is ~7 CPU-minutes; the default 3000 s was hit on a machine running 12 jobs per core
   "rule": "independent histories (reset m, m in 2..10,16,255) over keys of length 0..3 on a 3-4 letter alphabet (shared prefixes, "
           "empty key as nil and as empty slice); after every mutating op: raw-store dump of every internal node + 3 random queries "
-          "replayed by the model; the oracle compares get/split/prefix for every key of the closure, ~30 subset pairs, total, iteration "
-          "and store well-formedness with a plain Go map+sort reference; non-trivial = mutating op lines; distinct = distinct op lines",
+          "replayed by the model (incl. `iter b e` / `riter b e` with any bound shape); the oracle compares get/split/prefix for every key of the closure, ~30 subset pairs, "
+          "the 8 nil / empty-slice / key shapes of the SubsetAccumulation bounds, total, ordered iteration for ALL bound shapes (Iterator and ReverseIterator with (nil,nil), "
+          "(begin,nil), (nil,end), (begin,end); bounds present or absent in the tree, the empty non-nil slice, begin<end, begin=end, begin>end; later keys that do / do not extend "
+          "begin as a byte prefix) and store well-formedness with a plain Go map+sort reference; non-trivial = mutating op lines; distinct = distinct op lines",
   "trusted_base": ["cosmossdk.io/store dbadapter over cosmos-db MemDB (modelled as one sorted association list per level)",
                    "gogoproto (un)marshalling of Node/Leaf (empty Index decodes to nil; modelled by Ptr.isNil)",
                    "sdk Int overflow at 2^256 is not modelled (engine values stay below 2^80)"],
@@ -147,9 +156,13 @@ PROPS = {
   "fingerprints": ["Accum.*"],
   "engines": [{"name": "accum", "kind": "pure", "n": {"quick": 200000, "thorough": 1500000}, "shards": {"quick": 4, "thorough": 16}}],
   "rule": "independent histories (reset) of 20-250 API calls on the real accum package over a MemDB store: <=3 accumulators, <=6 position names, "
-          "<=3 denoms, amounts with 0-18 decimals incl. tiny/huge/half-even ties/overflow; modes fresh-handle, one-handle (judged by the ledger oracle), "
-          "stale-handles and discipline-breaking (correspondence only); every op line + full decoded store dumps are replayed by the Lean model; "
-          "a case is non-trivial when it is not a getter/dump/reset; distinct = distinct op lines",
+          "<=3 denoms, amounts with 0-18 decimals incl. tiny/huge/half-even ties/overflow; per history one naming world: classic, numeric ids with prefix relations "
+          "(7,70,71,700), alphabetic prefixes, names next to / containing the key separator characters, the empty and 180-character names, accumulators whose names are "
+          "prefixes of each other (acc, acc1, acc10) and position names that spell another accumulator's key tail; directed disappear paths (remove-all then claim, delete, "
+          "zero-share claim) aimed at names that another live name extends; modes fresh-handle, one-handle (judged by the ledger oracle), stale-handles (2-4 live handles per "
+          "accumulator out of 8 slots, every op through a randomly chosen, possibly stale one; judged by the whole-store oracle: shadow map of shares from the op arguments, "
+          "only the op's own records change, recorded total shares - sum of position shares unchanged by every op) and discipline-breaking (correspondence only); every op "
+          "line + full decoded store dumps are replayed by the Lean model; a case is non-trivial when it is not a getter/dump/reset; distinct = distinct op lines",
   "trusted_base": ["Go math/big (modelled by Int.tdiv/tmod)", "gogoproto (un)marshalling of AccumulatorContent/Record is the identity on in-range values (decoded store compared in every dump)",
                    "a panicking call is reverted by the caller's cache-wrapped store (stepTx); the engine flags and stops judging histories where a panic left an effect in the raw store"],
   "assumptions": ["theorems quantify over calls through a freshly fetched handle; a single long-lived handle per accumulator is covered by the engine's `one` mode (handle fields compared with the store in every dump), not by a theorem",
